@@ -77,6 +77,14 @@ fn logical(seed: u64, i: usize) -> Vec<Node> {
         }
         nodes.push(Node { class, name: format!("N{}", k), parent, props, ref_targets });
     }
+    // some instances carry an explicit UniqueId (distinct within the forest, so no construction makes the
+    // DOM regenerate one): it must survive every construction history unchanged
+    for (k, node) in nodes.iter_mut().enumerate() {
+        if rng.gen_bool(0.35) {
+            let id = rbx_dom_weak::types::UniqueId::new(k as u32 + 1, 5000 + i as u32, rng.gen_range(1..i64::MAX));
+            node.props.push(("UniqueId".to_string(), Variant::UniqueId(id)));
+        }
+    }
     nodes
 }
 
@@ -95,7 +103,7 @@ fn construct(nodes: &[Node], variant: u64, case: usize) -> (WeakDom, Vec<Ref>) {
         }
         b
     };
-    match variant % 3 {
+    match variant % 4 {
         0 => {
             // one insert per instance, parents first, in index order
             for k in 0..nodes.len() {
@@ -119,6 +127,22 @@ fn construct(nodes: &[Node], variant: u64, case: usize) -> (WeakDom, Vec<Ref>) {
                 dom.transfer_within(refs[k], p);
             }
             dom.destroy(holder);
+        }
+        3 => {
+            // built in place, then every top-level subtree is moved to another DOM and back again
+            for k in 0..nodes.len() {
+                let p = if nodes[k].parent == usize::MAX { root } else { refs[nodes[k].parent] };
+                refs[k] = dom.insert(p, make(k, &mut rng));
+            }
+            let mut other = WeakDom::new(InstanceBuilder::new("Folder"));
+            let oroot = other.root_ref();
+            let tops: Vec<Ref> = dom.root().children().to_vec();
+            for t in &tops {
+                dom.transfer(*t, &mut other, oroot);
+            }
+            for t in &tops {
+                other.transfer(*t, &mut dom, root);
+            }
         }
         _ => {
             // built in another DOM, then transferred / cloned across
